@@ -2164,9 +2164,10 @@ def _corr_rpath(ctx, rng, uc, n):
         call = 'reset_units(' + ', '.join([repr(a) for a in args] + [f'{k}={v!r}' for k, v in kw.items()]) + ')'
         if 'rtHz' in words.values() or any(v == '' for v in words.values()):
             continue
-        if (not seed_given and 0 < len(words) <= 4 and all(v in t.si for v in words.values())
-                and not in_float_range(predict_scales({k: v for k, v in words.items() if k in KINDS}, t.si), t)):
-            continue
+        known = {k: v for k, v in words.items() if k in KINDS}
+        if (not seed_given and 0 < len(words) <= 4 and known and all(v in t.si for v in known.values())
+                and not in_float_range(predict_scales(known, t.si), t)):
+            continue          # numericalunits itself divides by zero / overflows under such scalings (outside the model)
         _sync(ctx, base)
         before = dict(uc.unit)
         try:
@@ -2602,7 +2603,7 @@ def gen_refusal(rng, t, why):
             if not _over(ks):
                 break
         kw = {k: five[k] for k in ks}
-        cfg['seed'] = 'SI' if why == 'SI+named' else rng.randrange(1, 10 ** 6)
+        cfg['seed'] = 'SI' if why == 'SI+named' else rng.choice([0, rng.randrange(1, 10 ** 6), rng.randrange(1, 10 ** 6)])
         cfg['positional'] = why == 'positional-seed+named' or rng.random() < 0.3
     keys = list(kw)
     rng.shuffle(keys)
@@ -3583,40 +3584,35 @@ def _o_datamodel(ctx, np, uc, cfg, s, xs, shape):
             return
         v, e = cls[1], cls[2]
     m = _timed(uc.model, arr, s)
-    val = m['value']
-    want_list = len(shape) >= 1
-    if isinstance(val, list) != want_list or ('shape' in m) != (len(shape) >= 2) or ('unit' in m) != (s is not None):
-        ctx.violate('data-model:form', f'uc.model(array of shape {shape}, {s!r}) writes {dict(m)!r}: a number for a 0-d array, '
-                    f'a list otherwise, "shape" from two dimensions on, "unit" when units are given', replay)
-        return
-    if (s is not None and m['unit'] != s) or (len(shape) >= 2 and list(m['shape']) != list(shape)):
-        ctx.violate('data-model:form', f'uc.model(array of shape {shape}, {s!r}) writes unit {m.get("unit")!r}, shape '
-                    f'{m.get("shape")!r}', replay)
-        return
-    flat = [float(x) for x in (val if isinstance(val, list) else [val])]
-    ok = [_wide_ok(Fraction(x) / v) and _wide_ok(Fraction(x)) and _wide_ok(v) for x in xs]
-    if len(flat) != len(xs):
-        ctx.violate('data-model:form', f'uc.model(array of shape {shape}, {s!r}) writes {len(flat)} entries', replay)
-        return
-    for x, g, o in zip(xs, flat, ok):
-        want = Fraction(x) / v
-        if o and not abs(Fraction(g) - want) <= Fraction((e + 5.0) * 1.5 * U) * abs(want):
-            ctx.violate('data-model:value', f'uc.model({x!r}, {s!r}) after {_cfg_str(cfg)} writes {g!r}; {x!r} over the '
-                        f'factor {_f(v)!r} is {_f(want)!r}', replay)
-            return
     back = np.asarray(_timed(uc.value_unit, m))
     if not np.array_equal(arr, keep):
         ctx.violate('inverse:argument-changed', f'uc.model / uc.value_unit({s!r}) change the array handed in', replay)
         return
     if back.shape != shape:
-        ctx.violate('inverse:shape', f'value_unit(model(x, {s!r})) changes the shape {shape} -> {back.shape}', replay)
+        ctx.violate('inverse:shape', f'value_unit(model(x, {s!r})) changes the shape {shape} -> {back.shape} '
+                    f'(model wrote {dict(m)!r})', replay)
         return
-    for x, b, o in zip(xs, back.ravel().tolist(), ok):
-        if o and not abs(b - x) <= 4 * U * abs(x):
-            ctx.violate('inverse', f'value_unit(model(x, {s!r})) after {_cfg_str(cfg)}: x = {x!r} comes back as {b!r} '
-                        f'(model wrote {dict(m)!r})', replay)
+    ok = [_wide_ok(Fraction(x) / v) and _wide_ok(Fraction(x)) and _wide_ok(v) for x in xs]
+    bad = [(x, b) for x, b, o in zip(xs, back.ravel().tolist(), ok) if o and not abs(b - x) <= 4 * U * abs(x)]
+    if bad:
+        ctx.violate('inverse', f'value_unit(model(x, {s!r})) after {_cfg_str(cfg)}: x = {arr.tolist()!r} comes back as '
+                    f'{back.tolist()!r} (model wrote {dict(m)!r})', replay)
+        return
+    # what model wrote is x over the factor (the form of the record — number / list / shape key — is compared with the
+    # Lean model in the correspondence, not claimed here)
+    try:
+        val = m['value']
+        flat = [float(z) for z in np.asarray(val, dtype=float).ravel()]
+    except Exception:  # noqa
+        return
+    if len(flat) != len(xs):
+        return
+    for x, g, o in zip(xs, flat, ok):
+        want = Fraction(x) / v
+        if o and not abs(Fraction(g) - want) <= Fraction((e + 5.0) * 1.5 * U) * abs(want):
+            ctx.violate('convert:value', f'uc.model({arr.tolist()!r}, {s!r}) after {_cfg_str(cfg)} writes {val!r}; {x!r} over '
+                        f'the factor {_f(v)!r} is {_f(want)!r}', replay)
             return
-
 
 def _base_expr(rng, t, dim):
     """an expression of the given dimension written with other names: a numeric prefactor times/over powers of one
